@@ -60,6 +60,13 @@ Fixpoint zdel_ {V} (k : Z) (l : list (Z * V)) : list (Z * V) :=
   match l with [] => [] | (k', v) :: r => if k =? k' then zdel_ k r else (k', v) :: zdel_ k r end.
 Definition zhas_ {V} (k : Z) (l : list (Z * V)) : bool := is_some_ (zget_ k l).
 Definition mem_str_ (s : string) (l : list string) : bool := existsb (String.eqb s) l.
+Definition zset_ {V} (k : Z) (v : V) (l : list (Z * V)) : list (Z * V) := (k, v) :: zdel_ k l.
+Fixpoint sget_ {V} (k : string) (l : list (string * V)) : option V :=
+  match l with [] => None | (k', v) :: r => if String.eqb k k' then Some v else sget_ k r end.
+Fixpoint sdel_ {V} (k : string) (l : list (string * V)) : list (string * V) :=
+  match l with [] => [] | (k', v) :: r => if String.eqb k k' then sdel_ k r else (k', v) :: sdel_ k r end.
+Definition sset_ {V} (k : string) (v : V) (l : list (string * V)) : list (string * V) := (k, v) :: sdel_ k l.
+Definition shas_ {V} (k : string) (l : list (string * V)) : bool := is_some_ (sget_ k l).
 (* RemoteInterface.get(name): the method's schema if the interface declares it *)
 Definition iface_get (i : list string) (m : string) : option unit := if mem_str_ m i then Some tt else None.
 (* a ReferenceableTracker as the tables hold it: (puid, obj, refcount); puid = the object's identity *)
@@ -79,7 +86,16 @@ EXC = {"Violation": "EViolation", "BananaError": "EBanana", "KeyError": "EKeyErr
        "AttributeError": "EAttribute", "TypeError": "EType", "UnicodeDecodeError": "EUnicode"}
 
 
+def tfn(keyty, what):
+    return {"Z": "z", "str": "s"}[keyty] + what + "_"
+
+
 class Sym:
+    def sub(self, name):
+        """-> (table text function, value type, key type)"""
+        t = self.subs[name]
+        return (t[0], t[1], t[2] if len(t) > 2 else "Z")
+
     def __init__(self, name, env, prims, subs, outs, skip=()):
         self.name = name
         self.env0 = env          # lvalue text -> V
@@ -162,9 +178,9 @@ class Sym:
                     return self.expr(a, env, hs, lambda va: self.expr(b, env, hs, lambda vb: k(
                         V(fmt % (self.need(va, "Z", a), self.need(vb, "Z", b)), "bool"))))
             if isinstance(op, (ast.In, ast.NotIn)) and ast.unparse(b) in self.subs:
-                tbl, _ = self.subs[ast.unparse(b)]
+                tbl, _, kty = self.sub(ast.unparse(b))
                 def fin2(va):
-                    g = "(zhas_ %s %s)" % (self.need(va, "Z", a), tbl(env))
+                    g = "(%s %s %s)" % (tfn(kty, "has"), self.need(va, kty, a), tbl(env))
                     return k(V(g if isinstance(op, ast.In) else "(negb %s)" % g, "bool"))
                 return self.expr(a, env, hs, fin2)
             U("%s: comparison %s" % (self.name, txt))
@@ -182,11 +198,11 @@ class Sym:
         if isinstance(e, ast.Tuple) and len(e.elts) == 2 and isinstance(e.elts[1], ast.Constant) and e.elts[1].value is None:
             return self.expr(e.elts[0], env, hs, k)          # (obj, None): the ready_deferred slot carries nothing
         if isinstance(e, ast.Subscript) and ast.unparse(e.value) in self.subs:
-            tbl, vty = self.subs[ast.unparse(e.value)]
+            tbl, vty, kty = self.sub(ast.unparse(e.value))
             def fin3(vk):
                 x = self.fresh("t")
-                return "(match zget_ %s %s with Some %s => %s | None => %s end)" % (
-                    self.need(vk, "Z", e.slice), tbl(env), x, k(V(x, vty)), self.raise_("EKeyError", env, hs))
+                return "(match %s %s %s with Some %s => %s | None => %s end)" % (
+                    tfn(kty, "get"), self.need(vk, kty, e.slice), tbl(env), x, k(V(x, vty)), self.raise_("EKeyError", env, hs))
             return self.expr(e.slice, env, hs, fin3)
         if isinstance(e, ast.Attribute) and not isinstance(e.value, ast.Name):
             # attribute of a computed value: only tracker fields
@@ -259,6 +275,42 @@ class Sym:
         if isinstance(st, ast.If) and ast.unparse(st.test) == "self.debug" and not st.orelse and \
                 all(isinstance(x, ast.Expr) and isinstance(x.value, ast.Call) and ast.unparse(x.value.func) == "log.msg" for x in st.body):
             return cont(env)
+        if isinstance(st, ast.Assign) and len(st.targets) == 1 and isinstance(st.targets[0], ast.Subscript) \
+                and ast.unparse(st.targets[0].value) in self.subs:
+            tname = ast.unparse(st.targets[0].value)
+            tbl, vty, kty = self.sub(tname)
+            def store(vk):
+                def store2(vv):
+                    e2 = dict(env)
+                    e2["@" + tname] = V("(%s %s %s %s)" % (tfn(kty, "set"), self.need(vk, kty, st.targets[0].slice),
+                                                          self.need(vv, vty, st.value), tbl(env)), "table")
+                    return cont(e2)
+                return self.expr(st.value, env, hs, store2)
+            return self.expr(st.targets[0].slice, env, hs, store)
+        if isinstance(st, ast.For) and not st.orelse and ast.unparse(st.iter) in getattr(self, "fors", {}) and isinstance(st.target, ast.Name):
+            # iteration over a collection DECLARED to hold exactly one element (see the function's entry in generate()): the body
+            # runs once with the loop variable bound, then the statements after the loop; break / continue are not in the subset
+            for n in ast.walk(st):
+                if isinstance(n, (ast.Break, ast.Continue)):
+                    U("%s: break / continue in a loop" % self.name)
+            e2 = dict(env)
+            e2[st.target.id] = self.fors[ast.unparse(st.iter)]
+            return self.block(st.body + rest, e2, hs, k)
+        if isinstance(st, ast.If) and isinstance(st.test, ast.Name) and st.test.id in env and env[st.test.id] is not OPAQUE \
+                and env[st.test.id].ty in ("oZ",):
+            # `if x:` on an optional object narrows x in the body (objects are truthy, see the module docstring)
+            v = env[st.test.id]
+            x = self.fresh("n")
+            e2 = dict(env)
+            e2[st.test.id] = V(x, v.ty[1:])
+            return "(match %s with Some %s => %s | None => %s end)" % (
+                v.g, x, self.block(st.body + rest, e2, hs, k), self.block(st.orelse + rest, dict(env), hs, k))
+        if isinstance(st, ast.Assign) and len(st.targets) == 1 and isinstance(st.targets[0], ast.Name) \
+                and isinstance(st.value, ast.Subscript) and isinstance(st.value.slice, ast.Slice):
+            # a slice of a string (`hint = name[:2]`): only ever used inside an exception message
+            env = dict(env)
+            env[st.targets[0].id] = OPAQUE
+            return cont(env)
         if isinstance(st, ast.Assign) and len(st.targets) == 1:
             t = ast.unparse(st.targets[0])
             if isinstance(st.targets[0], ast.Name) or (isinstance(st.targets[0], ast.Attribute) and ast.unparse(st.targets[0].value) == "self"):
@@ -274,7 +326,11 @@ class Sym:
             U("%s: assignment target %s" % (self.name, t))
         if isinstance(st, ast.If):
             def both(v):
-                c = self.truth(v, st.test)
+                c = fold(self.truth(v, st.test))
+                if c == "true":          # decided at translation time (e.g. `not obj` where obj was just bound to None)
+                    return self.block(st.body + rest, dict(env), hs, k)
+                if c == "false":
+                    return self.block(st.orelse + rest, dict(env), hs, k)
                 return "(if %s\n then %s\n else %s)" % (c, self.block(st.body + rest, dict(env), hs, k),
                                                        self.block(st.orelse + rest, dict(env), hs, k))
             return self.expr(st.test, env, hs, both)
@@ -304,18 +360,21 @@ class Sym:
         if isinstance(st, ast.Delete) and len(st.targets) == 1 and isinstance(st.targets[0], ast.Subscript) \
                 and ast.unparse(st.targets[0].value) in self.subs:
             tname = ast.unparse(st.targets[0].value)
-            tbl, _ = self.subs[tname]
+            tbl, _, kty = self.sub(tname)
             def dele(vk):
-                kz = self.need(vk, "Z", st.targets[0].slice)
+                kz = self.need(vk, kty, st.targets[0].slice)
                 e2 = dict(env)
-                e2["@" + tname] = V("(zdel_ %s %s)" % (kz, tbl(env)), "table")
-                return "(if zhas_ %s %s then %s else %s)" % (kz, tbl(env), cont(e2), self.raise_("EKeyError", env, hs))
+                e2["@" + tname] = V("(%s %s %s)" % (tfn(kty, "del"), kz, tbl(env)), "table")
+                return "(if %s %s %s then %s else %s)" % (tfn(kty, "has"), kz, tbl(env), cont(e2), self.raise_("EKeyError", env, hs))
             return self.expr(st.targets[0].slice, env, hs, dele)
         if isinstance(st, ast.Expr) and isinstance(st.value, ast.Call):
             return self.expr(st.value, env, hs, lambda v: cont(env))
         U("%s: statement not in the subset: %s" % (self.name, txt[:120]))
 
     def is_message(self, e):
+        return self._is_message(e)
+
+    def _is_message(self, e):
         """a string built for an exception message: literal, or literal % (...) / literal + ... (possibly continued)"""
         if isinstance(e, ast.Constant) and isinstance(e.value, str):
             return True
@@ -326,8 +385,15 @@ class Sym:
     def leaf(self, v, env):
         parts = []
         if self.outs and self.outs[0] == "@return":
+            rt = getattr(self, "ret_ty", None)
             if v is None:
                 parts.append("None")
+            elif rt == "ostr" and v.ty == "str":
+                parts.append("(Some %s)" % v.g)
+            elif rt == "ostr" and v.ty == "none":
+                parts.append("None")
+            elif rt is not None and v.ty != rt:
+                U("%s: returns a %s value, expected %s" % (self.name, v.ty, rt))
             else:
                 parts.append(v.g)
         for o in self.outs:
@@ -354,6 +420,15 @@ class Sym:
 
     def run(self, body):
         return self.block(body, dict(self.env0), [], lambda env: self.leaf(None, env))
+
+
+def fold(c):
+    """constant folding of a condition: negb of a literal"""
+    while True:
+        c2 = c.replace("(negb true)", "false").replace("(negb false)", "true")
+        if c2 == c:
+            return c
+        c = c2
 
 
 def coq_string(s):
@@ -499,7 +574,50 @@ def generate():
     s = Sym("Broker.remote_decref", env={"clid": V("clid", "Z"), "count": V("count", "Z")}, prims={}, subs={}, outs=[],
             skip=["assert isinstance(clid, int)"])
     out.append(remote_decref_term(s, f))
+    out += name_table_terms()
     return {"ReachDispGen.v": "\n\n".join(out) + "\n"}
+
+
+def name_table_terms():
+    """pb.py: Tub._assignName and Tub.getReferenceForName, statement by statement.  The tables: nameToReference (name -> object),
+    referenceToName (object -> name).  ASSUMED (stated in ctx.assumptions): weak tables behave as dicts while the objects are alive;
+    at most ONE name-lookup handler is registered (the loop over self.nameLookupHandlers is translated as a loop over a one-element
+    list whose element answers `handler name`; no handler = a handler that answers nothing)."""
+    pm = P.load("pb.py")
+    out = []
+
+    def tb(name, default):
+        return lambda env: env["@" + name].g if "@" + name in env else default
+    subs = {"self.nameToReference": (tb("self.nameToReference", "n2r"), "Z", "str"),
+            "self.referenceToName": (tb("self.referenceToName", "r2n"), "str", "Z")}
+    outs = ["@return", ("@self.nameToReference", "table"), ("@self.referenceToName", "table")]
+
+    f = P.find_def(pm, "Tub._assignName")
+    if [a.arg for a in f.args.args] != ["self", "ref", "preferred_name"] or f.args.vararg or f.args.kwarg or f.decorator_list:
+        U("Tub._assignName: signature changed")
+    s = Sym("Tub._assignName",
+            env={"ref": V("ref", "Z"), "preferred_name": V("preferred_name", "str"), "self.locationHints": V("has_hints", "bool"),
+                 "@self.nameToReference": V("n2r", "table"), "@self.referenceToName": V("r2n", "table")},
+            prims={"self.generateSwissnumber": (lambda a, env: "sw", "str", False, 1)},
+            subs=subs, outs=outs)
+    s.env0["self.NAMEBITS"] = V("0", "Z")
+    s.ret_ty = "ostr"
+    out.append("(* preferred_name: the empty string stands for None (both are falsy); sw: what generateSwissnumber returns *)\n"
+               "Definition gen_assign_name (has_hints : bool) (n2r : list (string * Z)) (r2n : list (Z * string)) (ref : Z)\n"
+               "  (preferred_name sw : string) : xres (option string * list (string * Z) * list (Z * string)) :=\n %s." % s.run(body_nodoc(f)))
+
+    f = P.find_def(pm, "Tub.getReferenceForName")
+    if [a.arg for a in f.args.args] != ["self", "name"] or f.args.vararg or f.args.kwarg or f.decorator_list:
+        U("Tub.getReferenceForName: signature changed")
+    s = Sym("Tub.getReferenceForName",
+            env={"name": V("name", "str"), "@self.nameToReference": V("n2r", "table"), "@self.referenceToName": V("r2n", "table")},
+            prims={"lookup": (lambda a, env: "(sget_ %s handler)" % a[0].g, "oZ", False, 1)},
+            subs=subs, outs=outs)
+    s.fors = {"self.nameLookupHandlers": V("handler", "handler")}
+    s.ret_ty = "Z"
+    out.append("Definition gen_get_reference_for_name (n2r : list (string * Z)) (r2n : list (Z * string)) (handler : list (string * Z))\n"
+               "  (name : string) : xres (Z * list (string * Z) * list (Z * string)) :=\n %s." % s.run(body_nodoc(f)))
+    return out
 
 
 def somestr(v):
